@@ -17,6 +17,10 @@ def run(F, G, tier, seed):
     effects.run_c13_seeds(chk, F, rid2)
     effects.run_reads(chk, F)
     effects.run_restricted(chk, F)
+    from ..callgraph import CallGraph
+    CG = CallGraph(F)
+    effects.run_prepass(chk, F, CG, fields=("depends",))
+    effects.run_ownlocals(chk, F, CG, fields=("depends",))
     effects.run_visitors(chk, F, visitors=("UTAP::CollectDependenciesVisitor",))
     # checkType reaches array sizes and nested types
     rid3 = "R-CHECKTYPE"
